@@ -217,6 +217,35 @@ def call_builtin(ex, st, name, args, kwargs, node):
     # ---- spec functions (contracts/spec.py), inlined -------------------------------------
     if name.startswith("spec."):
         return call_spec(ex, st, name[5:], args, kwargs)
+    if short in ("hexlify", "unhexlify") or name in ("hex_byte", "is_hex_string", "probables.utilities.is_hex_string"):
+        from . import streams
+        v = args[0]
+        if name.endswith("is_hex_string"):
+            if isinstance(v, VNone):
+                return VBool(False)
+            if isinstance(v, VSeq) and v.kind == "hex":
+                return VBool(True)
+            if isinstance(v, VOpt) and isinstance(v.val, VSeq) and v.val.kind == "hex":
+                return VBool(z3.Not(v.isnone))
+            raise Unsupported("is_hex_string of something that is not a hex text")
+        ex.lib_used.add("hex text = the sequence of its digit values: hexlify(b)[2i], [2i+1] = b[i] div 16, b[i] mod 16; "
+                        "unhexlify(h)[i] = 16*h[2i] + h[2i+1] (odd length raises binascii.Error); letter case abstracted")
+        if not isinstance(v, VSeq):
+            raise Unsupported(f"{short} of {v}")
+        a = v.comps[0]
+        if name == "hex_byte":
+            i = as_int(args[1])
+            return VInt(16 * a[2 * i] + a[2 * i + 1])
+        j = z3.Int("hx%j")
+        if short == "hexlify":
+            if v.kind.startswith("array:") and v.kind != "array:B":
+                v = streams.tobytes(ex, st, v)
+                a = v.comps[0]
+            return VSeq([z3.Lambda([j], z3.If(j % 2 == 0, a[j / 2] / 16, a[j / 2] % 16))], 2 * v.ln, TInt(0, 15), "hex")
+        if v.kind != "hex":
+            raise Unsupported("unhexlify of something that is not a hex text")
+        ex.oblige(st, f"L{line}.unhexlify_even_length", v.ln % 2 == 0, "safety")
+        return VSeq([z3.Lambda([j], 16 * a[2 * j] + a[2 * j + 1])], v.ln / 2, TInt(0, 255), "bytes")
     # ---- functions of the repository under contract ----------------------------------------
     if name in ex.repo.funcs or name in _contract_keys():
         from .api import CONTRACTS
@@ -318,6 +347,8 @@ def call_builtin(ex, st, name, args, kwargs, node):
         return VBool(ex.truth(st, args[0]))
     if name == "str":
         v = args[0]
+        if isinstance(v, VSeq) and v.kind == "hex":
+            return v
         if isinstance(v, (VInt, VBool)):
             ex.lib_used.add("str(int): injective uninterpreted function")
             return VStr(str_of_int(as_int(v)))
@@ -469,6 +500,13 @@ def call_builtin(ex, st, name, args, kwargs, node):
         if name == "byte_of":
             return VInt(streams.digit(as_int(args[0]), k))
         return VInt(streams.digit(streams.f32bits(as_real(args[0])), k))
+    if name == "f32_at_be":
+        from . import streams
+        return VReal(streams.f32val(streams.be_uint(args[0].comps[0], as_int(args[1]), 4)))
+    if name == "unhex":
+        a = args[0].comps[0]
+        j = z3.Int("hx%j")
+        return VSeq([z3.Lambda([j], 16 * a[2 * j] + a[2 * j + 1])], args[0].ln / 2, TInt(0, 255), "bytes")
     if name in ("written", "f32_at"):
         from . import streams
         if name == "written":
@@ -480,6 +518,8 @@ def call_builtin(ex, st, name, args, kwargs, node):
         v = args[0]
         if isinstance(v, VSeq):
             kind = "list" if name == "list" else ("bytes" if name != "tuple" else v.kind)
+            if name in ("bytes", "bytearray") and v.kind in ("array:I", "array:i"):
+                return streams.tobytes(ex, st, v)          # buffer protocol: the raw bytes of the cells
             if name in ("bytes", "bytearray") and isinstance(v.et, TInt) and not (v.et.lo == 0 and v.et.hi == 255):
                 k = z3.Int(fresh_name("b"))
                 ex.oblige(st, f"L{line}.bytes_in_range",
@@ -630,6 +670,8 @@ def isinstance_model(ex, st, v, tnode):
             and not any(n in ("str",) for n in names):
         return VBool(False)          # a path (text) is none of the byte-carrying types
     if isinstance(v, VSeq):
+        if v.kind == "hex":
+            return VBool("str" in names)
         if v.kind == "bytes":
             return VBool(any(n in ("bytes", "bytearray", "memoryview", "ByteString") for n in names))
         if v.kind == "mmap":
@@ -716,7 +758,7 @@ def exec_with(ex, s, st):
 # ---------------------------------------------------------------------------------------------
 
 
-REAL_BUILTINS = {"smul", "f32", "ln", "exp_", "log2_", "pow_", "ceil_", "le_bytes", "be_bytes", "upd", "rem", "allkeys",
+REAL_BUILTINS = {"hex_byte", "unhex", "f32_at_be", "smul", "f32", "ln", "exp_", "log2_", "pow_", "ceil_", "le_bytes", "be_bytes", "upd", "rem", "allkeys",
                  "tcount", "tsize", "lcount", "nodup", "same", "undone_table", "undone_hand", "written", "f32_at", "byte_of", "f32_byte", "i32_at", "i64_at", "default_mode", "mode_of", "file_bytes", "file_exists", "resolve"}
 
 
